@@ -194,7 +194,7 @@ def call_and_capture(mod, client_cls, is_async, method_name, kwargs, data=None, 
         return captured, ("exc", e)
 
 
-def call_and_capture_ws(mod, mods, client_cls, method_name, kwargs, client_kwargs=None):
+def call_and_capture_ws(mod, mods, client_cls, method_name, kwargs, client_kwargs=None, data=None):
     """Subscription counterpart of call_and_capture: scripted in-memory graphql-transport-ws connection
     (ack, then complete); returns the payloads of the subscribe frames the client sent."""
     import asyncio
@@ -202,6 +202,8 @@ def call_and_capture_ws(mod, mods, client_cls, method_name, kwargs, client_kwarg
     class _FakeWS:
         def __init__(self):
             self.sent, self.frames, self.closed = [], ['{"type": "connection_ack"}', '{"type": "complete", "id": "x"}'], False
+            if data is not None:
+                self.frames.insert(1, json.dumps({"type": "next", "id": "x", "payload": {"data": data}}))
 
         async def send(self, m):
             self.sent.append(m)
@@ -221,6 +223,7 @@ def call_and_capture_ws(mod, mods, client_cls, method_name, kwargs, client_kwarg
             self.closed = True
 
     ws = _FakeWS()
+    yielded = []
 
     class _CM:
         async def __aenter__(self_):
@@ -236,10 +239,11 @@ def call_and_capture_ws(mod, mods, client_cls, method_name, kwargs, client_kwarg
         c = client_cls(ws_url="ws://verif.invalid", **(client_kwargs or {}))
 
         async def drain():
-            async for _ in getattr(c, method_name)(**kwargs):
-                pass
+            async for item in getattr(c, method_name)(**kwargs):
+                yielded.append(item)
         try:
             asyncio.run(drain())
+            status = ("ok", yielded)
         except BaseException as e:  # noqa
             status = ("exc", e)
     finally:
